@@ -54,6 +54,10 @@ extern int mpt_queue_recv(MPT_STRUCT(decode_queue) *qu)
 	ssize_t res;
 	
 	if (!(len = qu->data.len)) {
+		/* delivered (empty) message is consumed, nothing further to offer */
+		if (qu->_state.data.msg >= 0) {
+			qu->_state.data.msg = -1;
+		}
 		return MPT_ERROR(MissingData);
 	}
 	/* get new data part */
